@@ -91,6 +91,7 @@ IdxC3 == {0 - 1, 0, 2, 3}
 IdxS3 == {0 - 1, 2, 3}                        \* -1, len-1, len
 IdxF3 == (0 - 4)..3
 IdxF2 == (0 - 3)..2
+IdxS2 == {0 - 1, 1, 2}                        \* -1, len-1, len  (n = 2)
 IdxF4 == (0 - 5)..4
 SubQ  == {0 - 1, 0}
 SubZ  == {0}
